@@ -6,18 +6,28 @@ LEVEL_TEXT = (
     "southwards and columns eastwards; FORWARD/BACKWARD/LEFT/RIGHT/STAY with left and right as seen on the drawn maze; ValueError exactly for non-steps); StepTokenizers.Cardinal.to_tokens (one token: the "
     "direction in which the path LEAVES the step's start) and StepTokenizers.Relative.to_tokens (one token: the turn relative to the direction of arrival, the agent facing north before the first step); "
     "StepSizes.Singles (every solution index), StepSizes.Forks (exactly the forks of the solution plus both ends, by the forking-point contract of C13) and step_start_end_indices (steps are the consecutive "
-    "pairs of step ends, for any step size); is_connection (the connector / wall mark of an edge is edge(a,b), under C13). The composition of tokenizer elements (dynamic dispatch, region assembly, "
-    "coordinate tokens, the Distance vocabulary lookup) is outside the verified subset and is decided by the bounded stand-in, which implements the statement's own quantifier: "
-    + "PROVED (unbounded, z3): the two leaf functions that give direction tokens their meaning - get_cardinal_direction (rows grow southwards, columns eastwards) and get_relative_direction (STAY/BACKWARD/FORWARD and LEFT/RIGHT as rotations on the drawn maze, ValueError exactly for non-neighbouring or indeterminate inputs). Bounded, with the statement's own quantifier: an independent decoder configured only from the tokenizer's parameters recovers regions, edge sets with marks, origin, target and step sequences, exhaustively per region over all 216 adjacency-list and 1008 path element configurations (a stratified slice in the quick tier) plus a pairwise-covering set of full configurations, on mazes of all three kinds."
+    "pairs of step ends, for any step size); is_connection (the connector / wall mark of an edge is edge(a,b), under C13). "
+    "REGION LAYOUT (first clause of the property): PromptSequencers.AOTP / AOP._sequence_tokens put each region between its own pair of delimiters, once, in the order adjacency - origin - target - path "
+    "(AOP keeps the empty target region's delimiters), for token lists of any length; tokens_between is the slice between the FIRST occurrences of its two delimiters with the documented exceptions, exactly; and the lemma "
+    "prompt_layout (for AOTP and AOP): _trim_if_unsolved_maze(_sequence_tokens(...)) - the real bodies - is the full layout for a solved maze, the layout up to TARGET_END for a targeted maze and "
+    "[ADJLIST_START, *adjacency, ADJLIST_END] for an untargeted one, never raising, provided no region token is itself one of the eight delimiters (the real constants of maze_dataset.constants). "
+    "DECODABLE REGIONS: lemma regions_roundtrip - token_utils.get_adj_list_tokens / get_origin_tokens / get_target_tokens / get_path_tokens(trim_end=True) (real bodies) recover from a full AOTP sequence exactly "
+    "the four region lists it was built from (non-empty adjacency, origin and target regions: tokens_between refuses an empty slice). "
+    "The composition of the region tokenizers themselves (dynamic dispatch, coordinate tokens, the Distance vocabulary lookup) is outside the verified subset and is decided by the bounded stand-in, "
+    "which implements the statement's own quantifier: an independent decoder configured only from the tokenizer's parameters recovers regions, edge sets with marks, origin, target and step sequences, "
+    "exhaustively per region over all 216 adjacency-list and 1008 path element configurations (a stratified slice in the quick tier) plus a pairwise-covering set of full configurations, on mazes of all three kinds."
 )
 LEVEL_NOTE = "Trusted: pyvc encoding; np.concatenate / np.expand_dims library models. The dynamic composition of tokenizer elements is outside the verified subset; the bounded decoder is the harness's own."
 TECHNIQUE = "bounded run-time checking of the real tokenizers against an independent decoder over enumerated element configurations and mazes + contracts on the direction / step-size / step-token leaves discharged by z3"
-CONTRACT_MODULES = ["contracts.lattice_maze", "contracts.token_utils", "contracts.steps"]
+CONTRACT_MODULES = ["contracts.lattice_maze", "contracts.token_utils", "contracts.steps", "contracts.sequencing"]
 TU = "maze_dataset/token_utils.py"
 MT = "maze_dataset/tokenization/maze_tokenizer.py"
 PROVE = [(TU, "get_cardinal_direction"), (TU, "get_relative_direction"), (MT, "StepTokenizers.Cardinal.to_tokens"), (MT, "StepTokenizers.Relative.to_tokens"),
-         (MT, "StepSizes.Singles._step_single_indices"), (MT, "StepSizes.Forks._step_single_indices"), (MT, "StepSizes._StepSize.step_start_end_indices")]
-ASSUMPTIONS = ["consecutive solution cells are lattice-adjacent (what SolvedMaze solutions are); start_index + 1 < len(solution)"]
+         (MT, "StepSizes.Singles._step_single_indices"), (MT, "StepSizes.Forks._step_single_indices"), (MT, "StepSizes._StepSize.step_start_end_indices"),
+         (TU, "tokens_between"), (MT, "PromptSequencers.AOTP._sequence_tokens"), (MT, "PromptSequencers.AOP._sequence_tokens"),
+         ("/verif/contracts/lemmas_src.py", "prompt_layout"), ("/verif/contracts/lemmas_src.py", "prompt_layout_aop"),
+         ("/verif/contracts/lemmas_src.py", "regions_roundtrip")]
+ASSUMPTIONS = ["region token lists contain none of the eight region delimiters (coordinate, connector, direction and distance tokens are other vocabulary entries: checked by the bounded decoder, not proved)", "consecutive solution cells are lattice-adjacent (what SolvedMaze solutions are); start_index + 1 < len(solution)"]
 EXPLANATION = "see DESIGN.md C06"
 
 
